@@ -77,7 +77,7 @@ type DeclOpts struct {
 
 // SafeExclude: fields whose fetching is the subject of C14's known findings;
 // other pipeline checks leave them out so that one defect keeps one key.
-var SafeExclude = map[string]bool{"tx_gas_price": true, "tx_effective_gas_price": true}
+var SafeExclude = map[string]bool{}
 
 // Decl draws a declaration.
 func Decl(r *vk.RNG, o DeclOpts) *model.Decl {
@@ -100,9 +100,7 @@ func Decl(r *vk.RNG, o DeclOpts) *model.Decl {
 		case "ctx", "header", "block":
 			pool = append(pool, f)
 		case "receipt":
-			if model.Mode(mode) != model.ModeTrace { // receipts+traces never fetches traces (C14 finding)
-				pool = append(pool, f)
-			}
+			pool = append(pool, f)
 		case "log":
 			if model.Mode(mode) == model.ModeLog {
 				pool = append(pool, f)
